@@ -46,6 +46,7 @@ int vnaproperty_export_yaml_to_file(const vnaproperty_t *root, FILE *fp,
     yaml_tag_directive_t tags[1];
     yaml_document_t document;
     bool delete_document = false;
+    bool delete_emitter = false;
     yaml_emitter_t emitter;
 
     /*
@@ -90,6 +91,7 @@ int vnaproperty_export_yaml_to_file(const vnaproperty_t *root, FILE *fp,
 		vyml.vyml_filename, strerror(errno));
 	goto error;
     }
+    delete_emitter = true;
     yaml_emitter_set_output_file(&emitter, fp);
     yaml_emitter_set_encoding(&emitter, YAML_UTF8_ENCODING);
     yaml_emitter_set_canonical(&emitter, 0);
@@ -129,6 +131,9 @@ int vnaproperty_export_yaml_to_file(const vnaproperty_t *root, FILE *fp,
     return 0;
 
 error:
+    if (delete_emitter) {
+	(void)yaml_emitter_delete(&emitter);
+    }
     if (delete_document) {
 	yaml_document_delete(&document);
     }
